@@ -990,6 +990,22 @@ pub fn generate(ctx: &Ctx, prop: &str, rng: &mut Rng64, thorough: bool, index: u
         repeat: 0,
     };
     match prop {
+        "C04" if rng.chance(60) => {
+            // the same position again on a tiny table with several workers: the root is answered
+            // from the table while other workers displace entries of the same bucket
+            case.dims = *rng.pick(&[(1usize, 1usize), (1, 2), (1, 4), (2, 8)]);
+            let p = pick_position(ctx, rng);
+            let d = 2 + rng.below(3) as u32;
+            for round in 0..(2 + rng.below(2)) {
+                let w = *rng.pick(&[2usize, 3, 4, 8]);
+                let depth = if round == 0 { d } else { 1 + rng.below(d as u64) as u32 };
+                let mut faults = Vec::new();
+                if rng.chance(200) {
+                    faults.push(Fault { kind: FaultKind::StopAtGlobalNode, at: 1 + rng.below(2_000), times: 1 });
+                }
+                case.searches.push(SearchSpec { fen: p.fen(), depth: Some(if w >= 8 { depth.min(3) } else { depth }), seed: pick_seed(rng), entry: Entry::Sync { workers: Some(w) }, rayon_threads: w, fresh: false, history: vec![], faults });
+            }
+        }
         "C03" | "C04" if rng.chance(if prop == "C04" { 70 } else { 40 }) => {
             // stepping back: every successor of a position with one or two legal moves has been
             // a search root on this memory (terminal successors included), then the position
